@@ -292,12 +292,14 @@ func c03(tier string, args []string) int {
 	one := func(w *wctx, p *position.Position, r *refchess.Pos) {
 		c03Pre(w, p, r)
 		c03Post(w, p, r)
-		if r.EP < 0 { // also with a non-trivial clock (a position set up from FEN has an empty undo stack)
-			r2 := r.Clone()
-			r2.Half, r2.Full = 37, 41
-			if p2, err := position.NewPositionFen(r2.FEN()); err == nil {
-				c03Pre(w, p2, r2)
-				c03Post(w, p2, r2)
+		if r.EP < 0 { // also with non-trivial clocks (a position set up from FEN has an empty undo stack); 130: beyond a signed byte
+			for _, hc := range [][2]int{{37, 41}, {130, 90}} {
+				r2 := r.Clone()
+				r2.Half, r2.Full = hc[0], hc[1]
+				if p2, err := position.NewPositionFen(r2.FEN()); err == nil {
+					c03Pre(w, p2, r2)
+					c03Post(w, p2, r2)
+				}
 			}
 		}
 	}
